@@ -158,10 +158,18 @@ theorem C02_toposort_cmp_preorder (fixed : Bool) :
   ⟨Toposort.cmpLabel_tp fixed, Toposort.cmpComp_tp fixed⟩
 
 /-- OPEN (believed true, classical; mechanising Tarjan's algorithm is out of budget): the
-transcription of scc.go computes the strongly connected components.  Tied instead by
-correspondence: the driver checks `IsSCC`'s executable counterpart on every instance and the
-harness compares the component sets with `Graph.StronglyConnectedComponents()`. -/
+transcription of scc.go computes the strongly connected components, i.e. the hypothesis
+`IsSCC g comps` of the theorems above holds of what `StronglyConnectedComponents()` returns.
+Tied instead by pins and by correspondence: on every generated graph the harness compares the
+component SETS of the real `Graph.StronglyConnectedComponents()` with those of the executable
+transcription `tarjan` (I-level op `scc`), and the final order with `sortG` (O-level op `topo`). -/
 def C02_tarjan_stmt : Prop := ∀ g : Graph, g.WF → IsSCC g (tarjan g)
+
+-- non-vacuity: the contract of the sort is met by insertion sort, and `IsSCC` by the
+-- singleton partition of the (edgeless) witness graph; with cycles see the test below
+example : stableSort.Contract := Toposort.stableSort_contract
+example : IsSCC Toposort.wG [[Toposort.wS], [Toposort.wD]] :=
+  Toposort.isSCC_singletons Toposort.wG (fun _ => rfl) Toposort.wG_wf.nodup
 
 -- non-vacuity (a test): a diamond a→b, a→c, b→d, c→d with a back edge d→b
 -- sorts to a, c, then the component {b, d} (which has to wait for both a and c)
